@@ -18,6 +18,8 @@ package schema
 
 //@ func (o *DiffOptions) Skipped(c Change) (r bool)
 //@   requires o != nil
+//@   pure
+//@   modifies nothing
 //@   ensures iff-listed: r == GvcSkipped(o, c)
 //@   loop 1 invariant 0 <= loopk && loopk <= len(loopx)
 //@   loop 1 invariant (forall j int :: 0 <= j && j < loopk ==> !GvcSameKind(c, o.SkipChanges[j]))
@@ -29,8 +31,8 @@ package schema
 //@   ensures result-is-the-argument-or-new-memory: GvcBase(r) == GvcBase(changes) || GvcFresh(r)
 //@   ensures prefix-kept: len(r) >= len(changes) && (forall i int :: 0 <= i && i < len(changes) ==> r[i] == old[Change](changes[i]))
 //@   ensures only-unskipped-from-cs: (forall j int :: len(changes) <= j && j < len(r) ==>
-//@           (exists i int :: 0 <= i && i < len(cs) && r[j] == old[Change](cs[i]) && !old[bool](GvcSkipped(o, cs[i]))))
-//@   ensures every-unskipped-added: (forall i int :: 0 <= i && i < len(cs) && !old[bool](GvcSkipped(o, cs[i])) ==>
+//@           (exists i int :: 0 <= i && i < len(cs) && r[j] == old[Change](cs[i]) && !old[bool](o.Skipped(cs[i]))))
+//@   ensures every-unskipped-added: (forall i int :: 0 <= i && i < len(cs) && !old[bool](o.Skipped(cs[i])) ==>
 //@           (exists j int :: len(changes) <= j && j < len(r) && r[j] == old[Change](cs[i])))
 //@   ensures all-appended-in-order-when-no-kind-is-skipped: len(o.SkipChanges) == 0 ==>
 //@           len(r) == len(changes)+len(cs) && (forall i int :: 0 <= i && i < len(cs) ==> r[len(changes)+i] == old[Change](cs[i]))
@@ -42,8 +44,8 @@ package schema
 //@   loop 1 invariant GvcSameElems(cs) && GvcSameElems(o.SkipChanges)
 //@   loop 1 invariant (forall i int :: 0 <= i && i < old(len(changes)) ==> changes[i] == old[Change](changes[i]))
 //@   loop 1 invariant (forall j int :: old(len(changes)) <= j && j < len(changes) ==>
-//@           (exists i int :: 0 <= i && i < loopk && changes[j] == old[Change](cs[i]) && !old[bool](GvcSkipped(o, cs[i]))))
-//@   loop 1 invariant (forall i int :: 0 <= i && i < loopk && !old[bool](GvcSkipped(o, cs[i])) ==>
+//@           (exists i int :: 0 <= i && i < loopk && changes[j] == old[Change](cs[i]) && !old[bool](o.Skipped(cs[i]))))
+//@   loop 1 invariant (forall i int :: 0 <= i && i < loopk && !old[bool](o.Skipped(cs[i])) ==>
 //@           (exists j int :: old(len(changes)) <= j && j < len(changes) && changes[j] == old[Change](cs[i])))
 
 // ---------------------------------------------------------------------------------------
